@@ -98,3 +98,54 @@ Proof.
   { unfold fixv, take. destruct fix_; [|reflexivity]. apply firstn_all2. exact Hl. }
   cbn -[is_youtube_video_id fixv]. rewrite Hf, Hv. reflexivity.
 Qed.
+
+(* channels by name: the canonical url is https://www.youtube.com/<name> *)
+Lemma starts_needs_slash (pre n : str) : starts (47 :: pre ++ [47]) (47 :: n) = true -> In 47 n.
+Proof.
+  intros H. apply starts_app_iff in H. destruct H as [r Hr]. cbn [app] in Hr. injection Hr as Hr.
+  rewrite Hr. rewrite <- app_assoc. apply in_or_app. right. left. reflexivity.
+Qed.
+
+Lemma count_char_none (c : N) (s : str) : (forall x, In x s -> x <> c) -> count_char c s = 0%nat.
+Proof.
+  intros H. unfold count_char. induction s as [|x s IH]; [reflexivity|]. cbn [filter].
+  assert (x =? c = false) as -> by (apply N.eqb_neq; apply H; left; reflexivity).
+  apply IH. intros y Hy. apply H. right. exact Hy.
+Qed.
+
+Theorem youtube_channel_name_roundtrip fix_ n :
+  seg_clean n -> n <> lit "watch" -> mem_str n YOUTUBE_CHANNEL_NAME_BLACKLIST = false ->
+  (match n with 64 :: _ => False | _ => True end) ->
+  youtube_route fix_ yt_host (47 :: n) [] [] None = Ok (Some (mkrec "YoutubeChannel" [None; Some n])).
+Proof.
+  intros [Hne Hc] Hw Hb Hat. unfold youtube_route, yt_host.
+  assert (forall pre, starts (47 :: pre ++ [47]) (47 :: n) = false) as Hst.
+  { intros pre. destruct (starts (47 :: pre ++ [47]) (47 :: n)) eqn:E; [|reflexivity].
+    apply starts_needs_slash in E. destruct (Hc 47 E) as [F _]. congruence. }
+  change (ends (lit "youtu.be") (lit "www.youtube.com")) with false. cbv iota.
+  assert (eq_lit (47 :: n) "/watch" = false) as ->.
+  { unfold eq_lit. apply str_eqb_neq. change (lit "/watch") with (47 :: lit "watch"). intros [= E]. exact (Hw E). }
+  change (lit "/v/") with (47 :: lit "v" ++ [47]). change (lit "/video/") with (47 :: lit "video" ++ [47]).
+  change (lit "/embed/") with (47 :: lit "embed" ++ [47]). change (lit "/user/") with (47 :: lit "user" ++ [47]).
+  change (lit "/c/") with (47 :: lit "c" ++ [47]). change (lit "/channel/") with (47 :: lit "channel" ++ [47]).
+  change (lit "/shorts/") with (47 :: lit "shorts" ++ [47]).
+  rewrite !Hst. cbn [orb].
+  (* the else branch *)
+  assert (rstrip_chars [47] (47 :: n) = 47 :: n) as ->.
+  { unfold rstrip_chars. apply rstrip_by_id.
+    destruct (rev_last_of [47] n Hne) as (c & r & Hr & Hin). change (47 :: n) with ([47] ++ n). rewrite Hr.
+    cbn [mem]. destruct (Hc c Hin) as [Hc47 _]. assert (47 =? c = false) as -> by (apply N.eqb_neq; congruence). reflexivity. }
+  assert (count_char 47 (47 :: n) = 1%nat) as ->.
+  { unfold count_char. cbn [filter]. rewrite N.eqb_refl. cbn [length]. f_equal.
+    apply (count_char_none 47 n). intros x Hx. apply Hc. exact Hx. }
+  cbn [Nat.eqb].
+  assert (lstrip_chars [47] (47 :: n) = n) as ->.
+  { unfold lstrip_chars. cbn [lstrip_by mem]. rewrite N.eqb_refl. cbn [orb]. apply lstrip_by_id.
+    destruct n as [|x n']; [exact I|]. cbn [mem]. destruct (Hc x (or_introl eq_refl)) as [Hx _].
+    assert (47 =? x = false) as -> by (apply N.eqb_neq; congruence). reflexivity. }
+  rewrite Hb.
+  assert (lstrip_at n = n) as ->.
+  { unfold lstrip_at, lstrip_chars. apply lstrip_by_id. destruct n as [|x n']; [exact I|]. cbn [mem].
+    destruct (64 =? x) eqn:E; [apply N.eqb_eq in E; subst x; destruct Hat|reflexivity]. }
+  reflexivity.
+Qed.
